@@ -337,6 +337,14 @@ def rule_reset(ck):
         N = sym.Normalizer()
         ok = any(N.nf(a.test) in (N.nf('%s.sum() == %s' % (arr, first)), N.nf('numpy.sum(%s) == %s' % (arr, first))) for a in asserts)
         (o.ok() if ok else o.fail('the simulator no longer asserts that the simulated catalog holds exactly the requested number `%s`' % first))
+        # ... and that number is the one prescribed by the caller: the simulator does not replace it (capping it "so that the loop ends"
+        # makes the assertion compare with the replaced value)
+        o = ck.ob('C06-D7.prescribed', f, '`%s` is the number the caller prescribed' % first, f.node)
+        rebound = [a for a in find_assignments(f, first)
+                   if not (isinstance(a, ast.Assign) and isinstance(a.value, ast.Call) and (call_name(a.value) or '').split('.')[-1] == 'int'
+                           and len(a.value.args) == 1 and u(a.value.args[0]) == first)]
+        (o.fail('`%s` replaces the prescribed number of %s inside the simulator: the catalog is simulated - and asserted - with another number '
+                'than the test prescribes' % (u(rebound[0])[:70], 'active cells' if 'cell' in first else 'events')) if rebound else o.ok())
         # rejection loop counts a cell only when it was empty
         for w in [n for n in all_nodes(f) if isinstance(n, ast.While)]:
             o = ck.ob('C06-D7.reject', f, w.test, w)
@@ -389,7 +397,14 @@ def rule_event_numbers(ck):
         m, ok = bind_args(sim, c)
         e = ex.expand(m[sim.positional_params[0]])
         o = ck.ob('C06-D7.count.poisson', t, m[sim.positional_params[0]], c)
-        alts = {N.nf(a).skey() for a in phi_alternatives(e)}
+        cond = None
+        if isinstance(e, ast.IfExp):
+            tst, pos = e.test, True
+            while isinstance(tst, ast.UnaryOp) and isinstance(tst.op, ast.Not):
+                tst, pos = tst.operand, not pos
+            if isinstance(tst, ast.Name) and tst.id == 'use_observed_counts':
+                cond = (e.body, e.orelse) if pos else (e.orelse, e.body)
+        alts = {N.nf(a).skey() for a in (cond if cond else phi_alternatives(e))}
         want = {N.nf('builtins.int(numpy.sum(%s))' % od).skey(),
                 N.nf('builtins.int(numpy.random.poisson(__phi__(numpy.sum(%s), builtins.int(numpy.sum(%s)))))' % (fd, od)).skey()}
         want2 = {N.nf('builtins.int(numpy.sum(%s))' % od).skey(), N.nf('builtins.int(numpy.random.poisson(numpy.sum(%s)))' % fd).skey()}
@@ -397,7 +412,9 @@ def rule_event_numbers(ck):
             # which alternative under which flag
             var = m[sim.positional_params[0]]
             good = True
-            if isinstance(var, ast.Name):
+            if cond:
+                good = 'poisson' not in u(cond[0]) and 'poisson' in u(cond[1])
+            elif isinstance(var, ast.Name):
                 for a in find_assignments(t, var.id):
                     g = guards_of(a, t.node)
                     pois = 'poisson' in u(a.value)
